@@ -687,6 +687,8 @@ def origin_matches(orig, pred, through_fields=True, through_not=False):
             return True
         if through_fields and o[0] == "field" and origin_matches(o[2], pred, through_fields, through_not):
             return True
+        if through_fields and o[0] == "tuple" and any(origin_matches(el, pred, through_fields, through_not) for el in o[1]):
+            return True
         if through_not and o[0] == "not" and origin_matches(o[1], pred, through_fields, through_not):
             return True
     return False
